@@ -3,7 +3,7 @@ import itertools
 from typing import Tuple
 
 from ..driver import Cond
-from ..harness import H, Reject, catch
+from ..harness import H, Reject, catch, cond_fn
 from .. import ch
 from .common import meta_of, is_sample, std_replay, CHANNEL_FIELDS
 
@@ -24,7 +24,7 @@ INFO = {
     'bounds': {'quick': {'sample': '3 events x 3 channels', 'ints': 'unbounded (out-of-range '
                          'collapses to one path per side)', 'lists': 'length 0..2 mixing names '
                          'and ints', 'names': 'symbolic str of length <= 2', 'chains': 2,
-                         'slices': 'start/stop unbounded or None, step in -3..3 or None'},
+                         'slices': 'start/stop in -1..2 or None, step in {-1,2,None} (full -5..5 x -3..3 for rows with light column forms)'},
                'thorough': {'sample': '3 x 4', 'lists': 'length 0..3', 'chains': 3}},
     'outside': ['shapes larger than 3x4', 'keys with more than two entries', 'structured dtypes'],
     'stubs': [],
@@ -60,8 +60,13 @@ def src_meta(meta, c):
 
 # ------------------------------------------------------------------ key construction
 
-def _opt(flag, v):
-    return None if flag else v
+def _opt(flag, v, lo=-5, hi=5):
+    """Optional slice component, concretised inside its declared bounds so that FlowCal's own
+    tuple slicing of the metadata runs on concrete integers (the enumeration of the classes is
+    still the solver's)."""
+    if flag:
+        return None
+    return ch.pick(v, lo, hi + 1)
 
 
 def build_rows(rform, P):
@@ -92,7 +97,7 @@ def build_cols(cform, P, names, B):
         return P['c'][0], 'std'
     if cform == 'name':
         return P['nm0'], 'std'
-    if cform == 'slice':
+    if cform in ('slice', 'slice_full'):
         return slice(_opt(P['can'], P['ca']), _opt(P['cbn'], P['cb']), _opt(P['csn'], P['cs'])), 'std'
     if cform[:4] == 'list' or cform[:5] == 'tuple':
         n = int(cform[-1])
@@ -296,7 +301,7 @@ def body_get(B, I):
         if out is None or len(tuple(out.shape)) != 2:
             break
         cur = out
-        curplain = B.arr(B.tolist(out), 'int64')
+        curplain = B.np.array(flat_vals(B, out), dtype='int64').reshape(tuple(out.shape))
         curnames = list(out._channels)
     if meta_of(d) != before:
         return False, 'indexing changed the indexed sample'
@@ -349,24 +354,49 @@ def body_set(B, I):
 
 # ------------------------------------------------------------------ condition factory
 
-ROW_PARAMS = {
-    'int': ([('k1', 'int')], []),
-    'slice': ([('a', 'int'), ('b', 'int'), ('s', 'int'), ('an', 'bool'), ('bn', 'bool'),
-               ('sn', 'bool')], ['s != 0 and -3 <= s <= 3']),
-    'list': ([('k1', 'int'), ('k2', 'int')], []),
-    'mask': ([('m0', 'bool'), ('m1', 'bool'), ('m2', 'bool')], []),
-    'ell': ([], []),
+# row-key productions at three levels of richness: (estimated path classes, params, pre, consts)
+ROW_LEVELS = {
+    'int': [(8, [('k1', 'int')], [], {}),
+            (5, [('k1', 'int')], ['-1 <= k1 <= 3'], {}),
+            (1, [], [], {'k1': 1})],
+    'slice': [(1010, [('a', 'int'), ('b', 'int'), ('s', 'int'), ('an', 'bool'), ('bn', 'bool'),
+                      ('sn', 'bool')], ['s != 0 and -3 <= s <= 3 and -5 <= a <= 5 and -5 <= b <= 5'],
+               {}),
+              (80, [('a', 'int'), ('b', 'int'), ('s', 'int'), ('an', 'bool'), ('bn', 'bool'),
+                    ('sn', 'bool')], ['-1 <= a <= 2 and -1 <= b <= 2 and s in (-1, 2)'], {}),
+              (4, [('a', 'int')], ['-1 <= a <= 2'], {'bn': True, 'sn': True, 'an': False})],
+    'list': [(64, [('k1', 'int'), ('k2', 'int')], [], {}),
+             (25, [('k1', 'int'), ('k2', 'int')], ['-1 <= k1 <= 3 and -1 <= k2 <= 3'], {}),
+             (4, [('k1', 'int'), ('k2', 'int')], ['-1 <= k1 <= 0 and 1 <= k2 <= 2'], {})],
+    'mask': [(8, [('m0', 'bool'), ('m1', 'bool'), ('m2', 'bool')], [], {})],
+    'ell': [(1, [], [], {})],
 }
+COL_EST = {'absent': 1, 'int': 8, 'name': 13, 'slice': 80, 'slice_full': 1010, 'list0': 1,
+           'list1': 11, 'list2': 121, 'list3': 1331, 'tuple1': 11, 'tuple2': 121, 'tuple3': 1331,
+           'ell': 1, 'boollist': 8, 'npint': 8, 'none': 1}
+
+
+def row_spec(rform, cform, budget):
+    ce = COL_EST[cform]
+    for lv in ROW_LEVELS[rform]:
+        if lv[0] * ce <= budget:
+            return lv
+    return ROW_LEVELS[rform][-1]
+
+
 COL_PARAMS = {
     'absent': ([], []),
     'int': ([('c', 'Tuple[int, int, int]')], []),
     'npint': ([('c', 'Tuple[int, int, int]')], []),
     'name': ([('nm0', 'str')], ['len(nm0) <= 2 and all(ch_ in "abz" for ch_ in nm0)']),
     'slice': ([('ca', 'int'), ('cb', 'int'), ('cs', 'int'), ('can', 'bool'), ('cbn', 'bool'),
-               ('csn', 'bool')], ['cs != 0 and -3 <= cs <= 3']),
+               ('csn', 'bool')], ['-1 <= ca <= 2 and -1 <= cb <= 2 and cs in (-1, 2)']),
+    'slice_full': ([('ca', 'int'), ('cb', 'int'), ('cs', 'int'), ('can', 'bool'), ('cbn', 'bool'),
+                    ('csn', 'bool')],
+                   ['cs != 0 and -3 <= cs <= 3 and -5 <= ca <= 5 and -5 <= cb <= 5']),
     'list': ([('c', 'Tuple[int, int, int]'), ('isname', 'Tuple[bool, bool, bool]'),
               ('nmi', 'Tuple[int, int, int]')],
-             ['all(0 <= x <= 5 for x in nmi)']),
+             ['all(0 <= x <= 5 for x in nmi)', 'all(-1 <= x <= 3 for x in c)']),
     'ell': ([], []),
     'boollist': ([('m0', 'bool'), ('m1', 'bool'), ('m2', 'bool')], []),
     'none': ([], []),
@@ -381,31 +411,41 @@ DEFAULTS = dict(k1=0, k2=0, a=0, b=0, s=1, an=True, bn=True, sn=True, m0=True, m
                 ca=0, cb=0, cs=1, can=True, cbn=True, csn=True)
 
 
-def make_cond(rform, cform, N, D, steps, maxlen, setitem=False, cform2=None, rform2=None):
+def make_cond(rform, cform, N, D, steps, maxlen, setitem=False, cform2=None, rform2=None,
+              budget=1500):
     body = body_set if setitem else body_get
 
     def make(env):
-        from ..harness import cond_fn
         params, pre, seen = [], [], set()
+        consts = dict(DEFAULTS)
+        consts.update({k + '_2': v for k, v in DEFAULTS.items()})
 
-        def add(spec, suffix=''):
-            ps, pr = spec
+        def add(ps, pr, cst, suffix=''):
             for (n, t) in ps:
                 if n + suffix not in seen:
                     seen.add(n + suffix)
                     params.append((n + suffix, t))
-                    for p_ in pr:
-                        if n in p_:
-                            q_ = p_.replace(n, n + suffix) if suffix else p_
-                            if q_ not in pre:
-                                pre.append(q_)
-        add(ROW_PARAMS[rform])
-        add(COL_PARAMS[cform])
-        if cform2 is not None:
-            add(ROW_PARAMS[rform2], '_2')
-            add(COL_PARAMS[cform2], '_2')
-        consts = dict(DEFAULTS)
-        consts.update({k + '_2': v for k, v in DEFAULTS.items()})
+            for p_ in pr:
+                q_ = p_
+                if suffix:
+                    for (n, t) in ps:
+                        q_ = _rename(q_, n, n + suffix)
+                if q_ not in pre:
+                    pre.append(q_)
+            for k, v in cst.items():
+                consts[k + suffix] = v
+        if cform2 is None:
+            _, ps, pr, cst = row_spec(rform, cform, budget)
+            add(ps, pr, cst)
+            add(COL_PARAMS[cform][0], COL_PARAMS[cform][1], {})
+        else:
+            b1 = max(30, int(budget ** 0.5))
+            _, ps, pr, cst = row_spec(rform, cform, b1 * 3)
+            add(ps, pr, cst)
+            add(COL_PARAMS[cform][0], COL_PARAMS[cform][1], {})
+            _, ps, pr, cst = row_spec(rform2, cform2, b1)
+            add(ps, pr, cst, '_2')
+            add(COL_PARAMS[cform2][0], COL_PARAMS[cform2][1], {}, '_2')
         for n, _ in params:
             consts.pop(n, None)
         consts.update(rform=rform, cform=cform, N=N, D=D, steps=steps, maxlen=maxlen)
@@ -413,6 +453,11 @@ def make_cond(rform, cform, N, D, steps, maxlen, setitem=False, cform2=None, rfo
             consts.update(cform2=cform2, rform2=rform2)
         return cond_fn('index', params, body, pre=pre, consts=consts)
     return make
+
+
+def _rename(expr, old, new):
+    import re
+    return re.sub(r'\b%s\b' % re.escape(old), new, expr)
 
 
 def replay_for(setitem):
@@ -501,33 +546,95 @@ def conditions(tier):
     q = tier == 'quick'
     N, D = (3, 3) if q else (3, 4)
     maxlen = 2 if q else 3
+    budget = 1200 if q else 9000
+    tmo = 300 if q else 2400
     cs = [Cond('model_indexing_vs_numpy', kind='direct', run=run_validate, timeout=120,
                doc='symnp plain get/set indexing == installed NumPy on an exhaustive key grid')]
+    cfs = list(cforms(maxlen))
+    if not q:
+        cfs[cfs.index('slice')] = 'slice_full'
     for rf in RFORMS:
-        for cf in cforms(maxlen):
-            heavy = (rf == 'slice') + (cf[:3] in ('sli', 'lis', 'tup'))
-            cs.append(Cond('get_%s_%s' % (rf, cf), make=make_cond(rf, cf, N, D, 1, maxlen),
-                           replay=replay_for(False), timeout=(240 if q else 1200) * (1 + heavy),
+        for cf in cfs:
+            cs.append(Cond('get_%s_%s' % (rf, cf),
+                           make=make_cond(rf, cf, N, D, 1, maxlen, budget=budget),
+                           replay=replay_for(False), timeout=tmo,
                            doc='d[rows:%s, cols:%s] values == plain indexing with translated '
                                'positions; seven attributes == those of the selected columns in '
                                'order; errors for unknown names/out-of-range' % (rf, cf)))
     for rf in RFORMS:
         for cf in ('absent', 'int', 'name', 'slice', 'list1', 'list2', 'ell', 'boollist'):
-            heavy = (rf == 'slice') + (cf[:3] in ('sli', 'lis'))
-            cs.append(Cond('set_%s_%s' % (rf, cf), make=make_cond(rf, cf, N, D, 1, maxlen, True),
-                           replay=replay_for(True), timeout=(240 if q else 1200) * (1 + heavy),
+            cs.append(Cond('set_%s_%s' % (rf, cf),
+                           make=make_cond(rf, cf, N, D, 1, maxlen, True, budget=budget),
+                           replay=replay_for(True), timeout=tmo,
                            doc='d[rows:%s, cols:%s] = v writes exactly the addressed cells'
                                % (rf, cf)))
     # chains: first step a 2-d-preserving selection, second step any column form
-    chain_first = [('ell', 'list2'), ('mask', 'slice'), ('list', 'list2')]
-    chain_second = [('ell', 'int'), ('int', 'absent'), ('ell', 'name'), ('ell', 'list2')]
-    for (r1, c1) in chain_first:
-        for (r2, c2) in chain_second:
-            if q and (r1, c1) != ('ell', 'list2') and (r2, c2) != ('ell', 'int'):
-                continue
-            cs.append(Cond('chain_%s_%s__%s_%s' % (r1, c1, r2, c2),
-                           make=make_cond(r1, c1, N, D, 2, 2, False, c2, r2),
-                           replay=replay_for(False), timeout=600 if q else 2400,
-                           doc='two successive indexings; alignment judged against the '
-                               'original sample\'s metadata'))
+    if q:
+        chains = [(('ell', 'list1'), ('ell', 'int')), (('ell', 'list1'), ('ell', 'name')),
+                  (('ell', 'list1'), ('int', 'absent')), (('ell', 'list1'), ('ell', 'list1')),
+                  (('ell', 'slice'), ('ell', 'int')), (('list', 'list1'), ('ell', 'int'))]
+    else:
+        firsts = [('ell', 'list2'), ('mask', 'slice'), ('list', 'list2'), ('slice', 'list1')]
+        seconds = [('ell', 'int'), ('int', 'absent'), ('ell', 'name'), ('ell', 'list2'),
+                   ('slice', 'slice')]
+        chains = [(f, s_) for f in firsts for s_ in seconds]
+    for ((r1, c1), (r2, c2)) in chains:
+        cs.append(Cond('chain_%s_%s__%s_%s' % (r1, c1, r2, c2),
+                       make=make_cond(r1, c1, N, D, 2, 2, False, c2, r2, budget=budget * 2),
+                       replay=replay_for(False), timeout=tmo * 2,
+                       doc='two successive indexings; alignment judged against the '
+                           'original sample\'s metadata'))
+    if not q:
+        for (r3, c3) in (('ell', 'int'), ('ell', 'list2')):
+            cs.append(Cond('chain3_%s_%s' % (r3, c3), make=make_chain3(N, D, r3, c3),
+                           replay=std_replay(body_chain3), timeout=tmo,
+                           doc='three successive indexings (cols list2, cols slice, then %s/%s)'
+                               % (r3, c3)))
     return cs
+
+
+def body_chain3(B, I):
+    """Three successive column selections; alignment judged against the original metadata."""
+    N, D = I['N'], I['D']
+    with ch.NoTracing():
+        d, plain, meta, names = mk(B, N, D)
+        d._vf_untraced_hooks = True
+    cur, curplain, curnames = d, plain, list(names)
+    keys = []
+    P1 = dict(DEFAULTS)
+    P1.update(c=I['c'], isname=I['isname'], nmi=I['nmi'])
+    keys.append(('ell', 'list2', P1))
+    P2 = dict(DEFAULTS)
+    P2.update(ca=I['ca'], cb=I['cb'], cs=I['cs'], can=I['can'], cbn=I['cbn'], csn=True)
+    keys.append(('ell', 'slice', P2))
+    P3 = dict(DEFAULTS)
+    P3.update(c=I['c3'], isname=I['isname3'], nmi=I['nmi3'])
+    keys.append((I['r3'], I['c3form'], P3))
+    for step, (rf, cf, P) in enumerate(keys):
+        P['N'], P['D'] = N, D
+        rows = build_rows(rf, P)
+        colkey, kind = build_cols(cf, P, curnames, B)
+        ok, detail, out = check_get(B, cur, curplain, meta, curnames, (rows, colkey), colkey, kind,
+                                    True)
+        if not ok:
+            return False, 'step %d: %s' % (step + 1, detail)
+        if out is None or len(tuple(out.shape)) != 2:
+            break
+        cur = out
+        curplain = B.np.array(flat_vals(B, out), dtype='int64').reshape(tuple(out.shape))
+        curnames = list(out._channels)
+    return True
+
+
+def make_chain3(N, D, r3, c3form):
+    def make(env):
+        params = [('c', 'Tuple[int, int, int]'), ('isname', 'Tuple[bool, bool, bool]'),
+                  ('nmi', 'Tuple[int, int, int]'), ('ca', 'int'), ('cb', 'int'), ('cs', 'int'),
+                  ('can', 'bool'), ('cbn', 'bool'), ('c3', 'Tuple[int, int, int]'),
+                  ('isname3', 'Tuple[bool, bool, bool]'), ('nmi3', 'Tuple[int, int, int]')]
+        pre = ['all(0 <= x <= 5 for x in nmi)', 'all(-1 <= x <= 3 for x in c)',
+               '-1 <= ca <= 2 and -1 <= cb <= 2 and cs in (-1, 2)',
+               'all(0 <= x <= 5 for x in nmi3)', 'all(-1 <= x <= 3 for x in c3)']
+        return cond_fn('chain3', params, body_chain3, pre=pre,
+                       consts={'N': N, 'D': D, 'r3': r3, 'c3form': c3form})
+    return make
